@@ -165,7 +165,16 @@ func customC14(r *Run) ([]Crash, error) {
 			}
 			bsig := r.Srcs[o.Src.Meta["base"]].Sig
 			r.M.Counters["variant_build_failures"]++
-			r.M.Violations = append(r.M.Violations, Violation{Prop: r.Prop, Key: fmt.Sprintf("base=%s;%s=%s;kind=%s", bsig, o.Src.Meta["kind"], o.Src.Meta["decor"], o.Kind),
+			// a variant that does not build: the failure belongs to the position, not to the form of
+			// the inserted field (the generator's unkeyed struct literals break for ANY extra field),
+			// so the key names the position only and stays stable when forms are added
+			decorKey := o.Src.Meta["decor"]
+			if o.Src.Meta["kind"] == "excluded" {
+				if i := strings.Index(decorKey, "+"); i >= 0 {
+					decorKey = decorKey[:i]
+				}
+			}
+			r.M.Violations = append(r.M.Violations, Violation{Prop: r.Prop, Key: fmt.Sprintf("base=%s;%s=%s;kind=%s", bsig, o.Src.Meta["kind"], decorKey, o.Kind),
 				Case: o.Src.Name, Shape: o.Src.Name,
 				Detail: fmt.Sprintf("base shape %s builds, its variant (%s %s) does not:\n%s\n%s", bsig, o.Src.Meta["kind"], o.Src.Meta["decor"], o.Src.Code, o.Detail), Extra: map[string]interface{}{"base": o.Src.Meta["base"]}})
 		}
